@@ -105,8 +105,8 @@ theorem guard_sim (X : Ctx p q) {binders : List String} {ty : Option Fun.Ty} {si
     (Hcore : ∀ c' st1 s' ρ0' ρ', core c' st1 = .ok (s', st') → FS st st1 → ConsNames c' st1 n →
       (∀ b ∈ tfvTerm c' [], b.var.name ∉ binders) →
       EnvRel (GP p) q n xs env ρ0' → CRel (GP p) q n k c' ρ0' → BoundOn (tfvStmt s' []) ρ0' →
-      AgreeOn (tfvStmt s' []) ρ0' ρ' → Chunk p q (R p q) b sf ⟨s', ρ', out, n⟩) :
-    Chunk p q (R p q) b sf ⟨s, ρ, out, n⟩ := by
+      AgreeOn (tfvStmt s' []) ρ0' ρ' → Chunk p q (R p q) b cp μ sf ⟨s', ρ', out, n⟩) :
+    Chunk p q (R p q) b cp μ sf ⟨s, ρ, out, n⟩ := by
   rw [guarded_eq_of_binders_used binders ty site core c st hbu] at hcomp
   by_cases hbo : bindersOccurFree binders c = true
   · rw [if_pos hbo] at hcomp
